@@ -3,37 +3,34 @@ import XrayProofs.ConvDate
 namespace XrayModel.Conv
 open XrayGen
 
-/-- Euclidean division law of exact arithmetic on the float carrier: `t = 60·⌊t/60⌋ + (t mod 60)` -/
+/-- law of exact arithmetic on the float carrier: with `u = ⌊t/60⌋`, `(t - 60u) + 60u = t` -/
 def DivModLaw {F : Type} (O : FloatOps F) : Prop :=
-  ∀ t : F, O.add (O.ofInt (60 * O.floorDiv t (O.lit 600 1))) (O.fmod t (O.lit 600 1)) = t
+  ∀ t : F, O.add (O.ofInt (O.floorDiv t (O.lit 600 1) * 60)) (O.sub t (O.ofInt (O.floorDiv t (O.lit 600 1) * 60))) = t
 
 /-- `s` is a seconds value in [0, 60) -/
 def SecondsInRange {F : Type} (O : FloatOps F) (s : F) : Prop :=
-  O.floorDiv s (O.lit 600 1) = 0 ∧ O.fmod s (O.lit 600 1) = s
+  O.floorDiv s (O.lit 600 1) = 0
 
-/-- adding whole minutes to seconds in [0, 60) and dividing again gives the parts back -/
+/-- adding whole minutes to seconds in [0, 60) and splitting again gives the parts back -/
 def AddLaw {F : Type} (O : FloatOps F) : Prop :=
   ∀ (k : Int) (s : F), SecondsInRange O s →
-    O.floorDiv (O.add (O.ofInt (60 * k)) s) (O.lit 600 1) = k ∧ O.fmod (O.add (O.ofInt (60 * k)) s) (O.lit 600 1) = s
+    O.floorDiv (O.add (O.ofInt (k * 60)) s) (O.lit 600 1) = k ∧ O.sub (O.add (O.ofInt (k * 60)) s) (O.ofInt (k * 60)) = s
 
 theorem fix_lit : (fixOps 1048576).lit 600 1 = 62914560 := by decide +kernel
 
 theorem fix_divmod : DivModLaw (fixOps 1048576) := by
   intro t
   rw [fix_lit]
-  show 60 * Int.fdiv t 62914560 * 1048576 + Int.fmod t 62914560 = t
-  rw [Int.fdiv_eq_ediv_of_nonneg _ (by decide), Int.fmod_eq_emod_of_nonneg _ (by decide)]
+  show Int.fdiv t 62914560 * 60 * 1048576 + (t - Int.fdiv t 62914560 * 60 * 1048576) = t
   omega
 
 theorem fix_add : AddLaw (fixOps 1048576) := by
   intro k s hs
   unfold SecondsInRange at hs
   rw [fix_lit] at *
-  have h1 : Int.fdiv s 62914560 = 0 := hs.1
-  have h2 : Int.fmod s 62914560 = s := hs.2
-  show Int.fdiv (60 * k * 1048576 + s) 62914560 = k ∧ Int.fmod (60 * k * 1048576 + s) 62914560 = s
+  have h1 : Int.fdiv s 62914560 = 0 := hs
+  show Int.fdiv (k * 60 * 1048576 + s) 62914560 = k ∧ (k * 60 * 1048576 + s) - k * 60 * 1048576 = s
   rw [Int.fdiv_eq_ediv_of_nonneg _ (by decide)] at *
-  rw [Int.fmod_eq_emod_of_nonneg _ (by decide)] at *
   omega
 
 theorem minutes_split (u : Int) :
@@ -45,7 +42,7 @@ theorem minutes_split (u : Int) :
 theorem unix_datetime {F : Type} (O : FloatOps F) (law : DivModLaw O) (t : F) : unix O (datetime O t) = t := by
   unfold unix datetime add_int_float
   simp only []
-  rw [(good_all _).1, minutes_split]
+  rw [(good_all _).1, minutes_split, Int.mul_comm 60]
   exact law t
 
 theorem datetime_unix {F : Type} (O : FloatOps F) (law : AddLaw O) (dt : Datetime F)
@@ -56,7 +53,7 @@ theorem datetime_unix {F : Type} (O : FloatOps F) (law : AddLaw O) (dt : Datetim
   unfold unix datetime add_int_float
   simp only []
   have e : ((julian_day d - julian_day std_unix_epoch) * 86400 + h * 60 * 60 + m * 60) =
-      60 * ((julian_day d - julian_day std_unix_epoch) * 1440 + h * 60 + m) := by omega
+      ((julian_day d - julian_day std_unix_epoch) * 1440 + h * 60 + m) * 60 := by omega
   rw [e]
   obtain ⟨l1, l2⟩ := law ((julian_day d - julian_day std_unix_epoch) * 1440 + h * 60 + m) s hs
   rw [l1, l2]
